@@ -10,7 +10,8 @@ LEVEL_SYS = ('TLC checks the formalised property exhaustively on the RedoSys spe
              'sampled (quick) or enumerated (thorough) is replayed on the real binaries built from /repo and '
              'the observable state after every command is compared with the specification state.')
 NOTE_SYS = ('trusted: TLC, the hand-written specification (bound to the code by the replays), the kernel/SQLite; '
-            'bounded histories and small programs; flat directories')
+            'bounded histories and small programs; directories as targets, symbolic-link sources and alternative spellings '
+            'are modelled, links produced by scripts and directories as dependencies are not')
 
 CHECKS = {
     'C01': dict(technique='TLA+ model checking (TLC) of RedoSys invariant Fresh + replay of TLC-generated histories on the real redo',
@@ -23,9 +24,13 @@ CHECKS = {
                 design='DESIGN.md section 4 C05'),
     'C11': dict(technique='TLA+ model checking (TLC): action property NoTrample + behaviour replay comparing file bytes and roles',
                 design='DESIGN.md section 4 C11'),
-    'C04': dict(technique='TLA+ model checking (TLC): OnlyCompleteOutput/NoTmpLeft action properties over an output-channel table + behaviour replay with size classes and a concurrent reader',
+    'C04': dict(technique='TLA+ model checking (TLC): OnlyCompleteOutput/NoTmpLeft action properties over an output-channel table '
+                          '(stdout, $3, both, none, direct writes, $3 or $1 made a directory, failing renames) + behaviour replay with '
+                          'size classes and a concurrent reader',
                 design='DESIGN.md section 4 C04'),
-    'C07': dict(technique='TLA+ model checking (TLC) of every interleaving at -j2/-j3, schedule-independence of outcomes + jittered real runs matched against specification behaviours',
+    'C07': dict(technique='TLA+ model checking (TLC) of every interleaving at -j2/-j3, schedule-independence of outcomes + real runs under '
+                          'random script delays and under controlled scheduling (gate serializer, uniform and PCT priorities) matched '
+                          'against specification behaviours + trace validation of the serialized runs against TraceLocks',
                 design='DESIGN.md section 4 C07'),
     'C12': dict(technique='TLA+ model checking (TLC): NotHung (ENABLED), CycleReported on cyclic programs + behaviour replay under a wall-clock bound',
                 design='DESIGN.md section 4 C12'),
@@ -34,8 +39,9 @@ CHECKS = {
     'C14': dict(technique='TLA+ model checking (TLC) on ifcreate/always programs + behaviour replay',
                 design='DESIGN.md section 4 C14'),
     'C10': dict(technique='TLA+ model checking (TLC) with CrashTree/CrashOne enabled in every state: Fresh/RecoversOk after recovery '
-                          '+ gate-driven SIGKILL of the real process tree at every commit/rename point, post-kill state matched '
-                          'against a specification state',
+                          '+ gate-driven SIGKILL of the real process tree at every commit/rename point and between script steps, '
+                          'post-kill state matched against a specification state + SIGKILL before every state-changing system call '
+                          '(strace injection sweep) with the TLC-exported uncrashed history as oracle',
                 design='DESIGN.md section 4 C10'),
     'C08': dict(engine='RedoJobs', design='DESIGN.md section 4 C08',
                 technique='TLA+ model checking (TLC) of the token protocol RedoJobs (Conservation, MaxWork, ExitBalanced, '
